@@ -165,9 +165,32 @@ def base_cfg(rng, name, nettype, algo, aw):
     }
 
 
+def move_to_top(rng, cfg, eps):
+    """make one single-endpoint range end exactly at 2^addr_width"""
+    aw = cfg["protocols"][0]["addr_width"]
+    top = 1 << aw
+    cands = [e for e in eps if "array" not in e and isinstance(e.get("addr_range"), dict)]
+    if not cands:
+        return
+    r = rng.choice(cands)["addr_range"]
+    if "size" in r:
+        size = r["size"]
+    else:
+        size = r["end"] - r["start"]
+    lo = top - size
+    if "base" in r:
+        r["base"] = lo
+    if "start" in r:
+        r["start"] = lo
+    if "end" in r:
+        r["end"] = top
+
+
 def finish(rng, cfg, eps, routers, conns, shuffle=True):
     if not ensure_protocol_coverage(rng, eps, cfg["network_type"]):
         return None
+    if rng.random() < 0.08:
+        move_to_top(rng, cfg, eps)
     if shuffle and rng.random() < 0.5:
         rng.shuffle(eps)
     if shuffle and rng.random() < 0.5:
